@@ -1,8 +1,8 @@
 (* Props/C19Known.v — refutations: for each flag claimed `true` in Actual/EmbedActual.v a concrete fragment and
    embedding on which the faithful model of the string-concat-in-loop detector breaks the embedding law
    (closed by vm_compute).  The same inputs are in corpus/C19 and are replayed on the implementation on every run. *)
-From TL Require Import Lib.Base Lib.GenTypes Gen.EmbedGen Model.Embed Model.PrintStmt Model.PerfConcat Model.EmbedRun
-     Actual.EmbedActual.
+From TL Require Import Lib.Base Lib.GenTypes Gen.EmbedGen Model.Embed Model.PrintStmt Model.PerfConcat Model.StatelessCls
+     Model.MethodProp Model.EmbedRun Model.EmbedRun2 Actual.EmbedActual.
 
 (* docs/performance-linter.md, "String Concatenation Detection" *)
 Definition w_doc : list ast :=
@@ -42,4 +42,53 @@ Theorem C19_concat_name_table_refuted :
   in_domain (ERename [("buffer", "buffer_rn")]) w_named = [true; true]
   /\ law_cc concat_actual (ERename [("buffer", "buffer_rn")]) w_named = false
   /\ law_cc (cq_without 2 concat_actual) (ERename [("buffer", "buffer_rn")]) w_named = true.
+Proof. vm_compute. repeat split; reflexivity. Qed.
+
+(* ---------------------------------------------------------------- stateless-class *)
+Definition w_cls : list ast :=
+  [N "body" "ClassDef" 1 0 "StringUtils" "" [
+     N "body" "FunctionDef" 2 4 "capitalize" "" [N "args" "arguments" 2 4 "" "" [N "args" "arg" 2 19 "self" "" []; N "args" "arg" 2 25 "text" "" []];
+        N "body" "Return" 3 8 "" "" [N "value" "Call" 3 15 "" "" [N "func" "Attribute" 3 15 "capitalize" "" [N "value" "Name" 3 15 "text" "" []]]]];
+     N "body" "FunctionDef" 5 4 "reverse" "" [N "args" "arguments" 5 4 "" "" [N "args" "arg" 5 16 "self" "" []; N "args" "arg" 5 22 "text" "" []];
+        N "body" "Return" 6 8 "" "" [N "value" "Name" 6 15 "text" "" []]]]].
+Definition law_sl (q : squirks) (e : emb) (frag : list ast) : bool :=
+  same_reps (stateless_reports q (embed e frag)) (predicted e (stateless_reports q frag) (stateless_reports q (filler_of e))).
+
+(* renamed to TestStringUtils / StringmixinUtils the documented kind of class is no longer reported *)
+Theorem C19_stateless_test_name_refuted :
+  law_sl stateless_actual (ERename [("StringUtils", "TestStringUtils")]) w_cls = false
+  /\ law_sl (sq_without 0 stateless_actual) (ERename [("StringUtils", "TestStringUtils")]) w_cls = true.
+Proof. vm_compute. split; reflexivity. Qed.
+Theorem C19_stateless_mixin_name_refuted :
+  law_sl stateless_actual (ERename [("StringUtils", "StringmixinUtils")]) w_cls = false
+  /\ law_sl (sq_without 1 stateless_actual) (ERename [("StringUtils", "StringmixinUtils")]) w_cls = true.
+Proof. vm_compute. split; reflexivity. Qed.
+
+(* followed by an unrelated function that defines a local `class StringUtils(x.TestCase)`: nothing is reported *)
+Definition c_same : ctx :=
+  Seq [] 0 Hole
+      [N "body" "FunctionDef" 9 0 "_tv_other_class" "" [N "args" "arguments" 9 0 "" "" [N "args" "arg" 9 20 "_tv_p" "" []];
+         N "body" "ClassDef" 10 4 "StringUtils" "" [N "bases" "Attribute" 10 22 "TestCase" "" [N "value" "Name" 10 22 "_tv_p" "" []]; N "body" "Pass" 11 8 "" "" []];
+         N "body" "Return" 13 4 "" "" [N "value" "Name" 13 11 "_tv_p" "" []]]].
+Theorem C19_stateless_lookup_refuted :
+  sl_ctx_ok c_same = true
+  /\ law_sl stateless_actual (EPlug c_same) w_cls = false
+  /\ law_sl (sq_without 2 stateless_actual) (EPlug c_same) w_cls = true.
+Proof. vm_compute. repeat split; reflexivity. Qed.
+
+(* ---------------------------------------------------------------- method-property *)
+Definition w_user : list ast :=
+  [N "body" "ClassDef" 1 0 "User" "" [N "body" "FunctionDef" 2 4 "get_name" "" [N "args" "arguments" 2 4 "" "" [N "args" "arg" 2 17 "self" "" []];
+     N "body" "Return" 3 8 "" "" [N "value" "Attribute" 3 15 "_name" "" [N "value" "Name" 3 15 "self" "" []]]]]].
+(* class _TvWrap:  if _tv_c:  <hole>   -- the documented class under an `if` in a class body is never found *)
+Definition c_clsif : ctx :=
+  Wrap (I "body" "ClassDef" 1 0 "_TvWrap" "") [] [] 1 4
+       (Wrap (I "body" "If" 1 0 "" "") [N "test" "Name" 1 3 "_tv_c" "" []] [] 1 4 Hole).
+Definition law_mp (q : mquirks) (c : ctx) (frag : list ast) : bool :=
+  same_reps (method_reports q (plug c frag)) (shiftRs (off_l c) (off_c c) (method_reports q frag) ++ method_reports q (plug c [])).
+Theorem C19_method_class_body_only_refuted :
+  mp_ctx_ok c_clsif = true
+  /\ method_reports method_actual w_user = [(2, 4, "User", "get_name")]
+  /\ law_mp method_actual c_clsif w_user = false
+  /\ law_mp m_ideal c_clsif w_user = true.
 Proof. vm_compute. repeat split; reflexivity. Qed.
